@@ -10,11 +10,13 @@ TOKENS = ["<", ">", "/", "%", "#", "(", ")", "$$", "a", "B", "1", "-", " ", "\t"
 # complete-line shapes for the nesting logic
 LINE_SHAPES = ["<a>", "<A n>", "<b>", "<a/>", "<a N />", "</a>", "</A >", "</b>",
                "k v", "k", "", "# c", "%import p", "<a b c>", "</a n>", "<a/ >",
-               "k a\x0cb", "# c\u2028k v", "k a\x85b\rc", "</A>", "< a>", "<\ta n/>", "<a>b>"]
+               "k a\x0cb", "# c\u2028k v", "k a\x85b\rc", "</A>", "< a>", "<\ta n/>", "<a>b>",
+               "k $(ZCV_EMPTY)", "k a$(ZCV_EMPTY)b $(ZCV_WORD)", "k $(ZCV_UNSET)"]
 # extra shapes only used with the recording context (schemaless refuses them)
 DIRECTIVE_SHAPES = ["%define n v", "%define N", "%include f", "k $n", "%define m $n",
                     "%Define n v", "%define", "%import", "%foo x", "% define n v",
-                    "%define 1n v", "%include", "%includes f", "%import p q", "%include a b", "%include\tx\ty"]
+                    "%define 1n v", "%include", "%includes f", "%import p q", "%include a b", "%include\tx\ty",
+                    "%key_value k v", "%directive import p", "%define_ n v", "%import_ p", "%section a", "%include $(ZCV_EMPTY)"]
 
 
 def single_lines(maxtok, prefix_filter=None):
